@@ -260,15 +260,19 @@ def prior_table(ix, R):
         # both compile calls use the same table, model first then observation
         second = cps[1]
         t2 = second.node.args[2] if len(second.node.args) > 2 else None
-        okb = t2 is not None and unparse(t2) == unparse(tbl_ast) and \
-            unparse(first.node.args[0]) == 'self._model.fittingParameters' and \
-            unparse(first.node.args[1]) == 'self._model.derivedParameters' and \
-            unparse(second.node.args[0]) == 'self._observed.fittingParameters' and \
-            unparse(second.node.args[1]) == 'self._observed.derivedParameters'
+        # (the arguments as values: the calls may sit in a helper that is handed the component)
+        def arg_(ev_, k_, kw_):
+            return ev_.args[k_] if len(ev_.args) > k_ else ev_.kw.get(kw_)
+        okb = t2 is not None and unparse(t2) == unparse(tbl_ast) and all(
+            arg_(ev_, k_, kw_) is not None and fl.tab.equal(arg_(ev_, k_, kw_), code(fl, want_))
+            for ev_, k_, kw_, want_ in ((first, 0, 'fitparams', 'self._model.fittingParameters'),
+                                        (first, 1, 'driveparams', 'self._model.derivedParameters'),
+                                        (second, 0, 'fitparams', 'self._observed.fittingParameters'),
+                                        (second, 1, 'driveparams', 'self._observed.derivedParameters')))
+        shown = ' / '.join('compile_params(%s)' % ', '.join(fmt(fl, a_)[:50] for a_ in ev_.args) for ev_ in (first, second))
         R.check('4.order', 'ARG', site,
                 'model parameters are compiled first, then the observation\'s, with the same prior table',
-                okb, key='%s / %s' % (unparse(first.node), unparse(second.node)),
-                detail='%s / %s' % (unparse(first.node), unparse(second.node)), loc=f.loc(first.node))
+                okb, key=shown, detail=shown, loc=f.loc(first.node))
         # every default created by either pass ends up in the table the views read
         # (fit_names / fit_latex index self._fit_priors by the fitted names)
         why = []
@@ -466,16 +470,25 @@ def compile_fn(ix, R):
                 not why, key='; '.join(why), detail='; '.join(why), loc=f.loc(pr[0].node) if pr else f.loc())
         # derived
         dp = [e for e in apps if unparse(e.node.func.value) == n_der]
-        d = one(dp, 'append to derived_parameters')
-        dl = one(d.loops, 'loop')
-        ditem = fl.tab.atom('elem', (dl.iter_rf[0], dl.index))
-        okd = fl.tab.equal(dl.iter_rf[0], spec(fl, 'der.values()', pe)) and \
-            len(d.guards) == 1 and d.guards[0].positive and \
-            fl.tab.equal(d.guards[0].rf, fl.tab.atom('idx', (ditem, fl.tab.const(3)))) and \
-            fl.tab.equal(d.args[0], ditem)
-        R.check('4.derived', 'ALG', site, 'derived list = tuples whose compute flag (slot 3) is set',
-                okd, key='derived selection', detail='derived appended under %s' % [g.text() for g in d.guards],
-                loc=f.loc(d.node))
+        dcomp = [e for e in fl.of('assign') if e.name == n_der and atom_of(fl, e.value) is not None and
+                 atom_of(fl, e.value).head == 'comp']
+        if not dp and len(dcomp) == 1 and not dcomp[0].guards and not dcomp[0].loops:
+            # the same selection written as a comprehension
+            okd = fl.tab.equal(dcomp[0].value, spec(fl, '[p_ for p_ in der.values() if p_[3]]', pe))
+            R.check('4.derived', 'ALG', site, 'derived list = tuples whose compute flag (slot 3) is set',
+                    okd, key='derived selection', detail='derived list is %s' % fmt(fl, dcomp[0].value)[:200],
+                    loc=f.loc(dcomp[0].node))
+        else:
+            d = one(dp, 'append to derived_parameters')
+            dl = one(d.loops, 'loop')
+            ditem = fl.tab.atom('elem', (dl.iter_rf[0], dl.index))
+            okd = fl.tab.equal(dl.iter_rf[0], spec(fl, 'der.values()', pe)) and \
+                len(d.guards) == 1 and d.guards[0].positive and \
+                fl.tab.equal(d.guards[0].rf, fl.tab.atom('idx', (ditem, fl.tab.const(3)))) and \
+                fl.tab.equal(d.args[0], ditem)
+            R.check('4.derived', 'ALG', site, 'derived list = tuples whose compute flag (slot 3) is set',
+                    okd, key='derived selection', detail='derived appended under %s' % [g.text() for g in d.guards],
+                    loc=f.loc(d.node))
         r = the_return(fl)
         okr = not r.guards and not r.loops and len({n_fit, n_pri, n_tbl, n_der}) == 4
         ra = atom_of(fl, r.value)
@@ -492,38 +505,31 @@ def views(ix, R):
         site = OPT + '.' + nm
         with R.guard('3.view', 'SIB', site, 'view'):
             f = ix.func(site)
-            r = one([n for n in walk_no_nested(f.node) if isinstance(n, ast.Return)], 'return')
-            lc = r.value
-            if not (isinstance(lc, ast.ListComp) and len(lc.generators) == 1 and
-                    unparse(lc.generators[0].iter) == 'self.fitting_parameters' and
-                    isinstance(lc.elt, ast.IfExp)):
-                raise AnalysisError('%s is not a conditional comprehension over fitting_parameters' % nm)
-            v = lc.generators[0].target.id
-            import re as _re
-            ren = lambda txt: _re.sub(r'\b%s\b' % _re.escape(v), 'c', txt)
-            t = ren(unparse(lc.elt.test))
-            # the discriminator as an expression, locals of the method substituted (priors = self._fit_priors ...)
-            from sa.algebra import Conv as _Conv2
             fl_ = mkflow(ix, site)
-            c_ = _Conv2(fl_.tab, dict(fl_.env, **{v: fl_.tab.name('c')}), fl_.canon)
-            t_rf = c_.expr(lc.elt.test)
-            w_ = _Conv2(fl_.tab, {}, fl_.canon)
-            # the test in canonical polarity: `A if c == 'linear' else B` and `B if c != 'linear' else A` are one view
-            ct_, ft_ = fl_.tab.canon_cond(t_rf)
-            swap = False
-            disc[nm] = t
+            r = the_return(fl_)
+            ca = atom_of(fl_, r.value)
+            # the view, as a value: [<linear form> if <discriminator> else <log form> for c in self.fitting_parameters]
+            # (however the row is named, indexed or wrapped on the way)
+            if ca is None or ca.head != 'comp' or ca.extra != ('ListComp', '_') or len(ca.args) != 3 or \
+                    not fl_.tab.equal(ca.args[1], code(fl_, 'self.fitting_parameters')) or \
+                    atom_of(fl_, ca.args[2]) is None or atom_of(fl_, ca.args[2]).args:
+                raise AnalysisError('%s is not a conditional comprehension over fitting_parameters' % nm)
+            ea = atom_of(fl_, ca.args[0])
+            if ea is None or ea.head != 'guard':
+                raise AnalysisError('%s is not a conditional comprehension over fitting_parameters' % nm)
+            row = {'c': fl_.tab.name('%b0')}
+            ct_ = ea.args[0]            # canonical polarity (Table.atom('guard'))
+            disc[nm] = fmt(fl_, ct_).replace('%b0', 'c')
+            lin_, log_ = ea.args[1], ea.args[2]
             for label, txt in (('tuple mode (slot 4)', "c[4] == 'linear'"),
                                ('prior mode', 'self._fit_priors[c[0]].priorMode is PriorMode.LINEAR')):
-                cw_, fw_ = fl_.tab.canon_cond(w_.parse(txt))
+                cw_, fw_ = fl_.tab.canon_cond(spec(fl_, txt, row))
                 if fl_.tab.equal(ct_, cw_):
                     disc[nm] = label
-                    swap = ft_ != fw_
-            lin_, log_ = (lc.elt.orelse, lc.elt.body) if swap else (lc.elt.body, lc.elt.orelse)
-            forms[nm] = (ren(unparse(lin_)), ren(unparse(log_)))
-            from sa.algebra import Conv as _Conv, Table as _Table
-            _t = forms.setdefault('@tab', _Table())
-            _c = _Conv(_t, {v: _t.name('c')}, None)
-            forms['@' + nm] = (_c.expr(lin_), _c.expr(log_))
+                    if fw_:
+                        lin_, log_ = log_, lin_
+            forms[nm] = (fmt(fl_, lin_).replace('%b0', 'c'), fmt(fl_, log_).replace('%b0', 'c'))
+            forms['@' + nm] = (fl_, lin_, log_, row)
     want = {
         'fit_values': ('c[2]()', 'math.log10(c[2]())'),
         'fit_boundaries': ('c[-1]', '(math.log10(c[-1][0]), math.log10(c[-1][1]))'),
@@ -535,7 +541,7 @@ def views(ix, R):
         got = forms.get(nm)
         R.check('3b.form', 'ALG', OPT + '.' + nm,
                 '%s: linear -> %s, log -> %s' % (nm, w[0], w[1]),
-                got == w or got == alt.get(nm) or _same_forms(forms, nm, [w, alt.get(nm)]),
+                _same_forms(forms, nm, [w, alt.get(nm)]),
                 key='%s' % (got,), detail='linear/log forms are %s' % (got,))
     ds = set(disc.values())
     R.check('3.disc', 'SIB', OPT,
@@ -550,16 +556,14 @@ def views(ix, R):
 
 def _same_forms(forms, nm, wants):
     """the two arms of a view, compared as expressions (f-string / .format, np. / math. spellings are one form)"""
-    from sa.algebra import Conv as _Conv
-    t = forms.get('@tab')
     got = forms.get('@' + nm)
-    if t is None or got is None:
+    if got is None:
         return False
+    fl_, lin_, log_, row = got
     for w in wants:
         if w is None:
             continue
-        c = _Conv(t, {}, None)
-        if t.equal(got[0], c.parse(w[0])) and t.equal(got[1], c.parse(w[1])):
+        if fl_.tab.equal(lin_, spec(fl_, w[0], row)) and fl_.tab.equal(log_, spec(fl_, w[1], row)):
             return True
     return False
 
@@ -692,14 +696,17 @@ def tuple_layout(ix, R):
         site = OPT + '.' + nm
         with R.guard('8.dview', 'SIB', site, 'derived views'):
             f = ix.func(site)
-            r = one([n for n in walk_no_nested(f.node) if isinstance(n, ast.Return)], 'return')
-            lc = r.value
-            v = lc.generators[0].target.id
-            wantelt = '%s[%d]' % (v, k) + ('()' if k == 2 else '')
+            fl_ = mkflow(ix, site)
+            r = the_return(fl_)
             src = 'self.fitting_parameters' if nm == 'fit_values_nomode' else 'self.derived_parameters'
+            want_ = spec(fl_, '[c_[%d]%s for c_ in %s]' % (k, '()' if k == 2 else '', src))
+            ca = atom_of(fl_, r.value)
+            if ca is None or ca.head != 'comp':
+                raise AnalysisError('%s does not return a comprehension: %s' % (nm, fmt(fl_, r.value)[:100]))
+            lc = r.value_ast
             R.check('8.dview', 'SIB', site, '%s reads slot %d of %s' % (nm, k, src),
-                    unparse(lc.elt) == wantelt and unparse(lc.generators[0].iter) == src,
-                    key=unparse(lc), detail=unparse(lc), loc=f.loc(r))
+                    fl_.tab.equal(r.value, want_),
+                    key=unparse(lc), detail=unparse(lc), loc=f.loc(r.node))
 
 
 def _roles_ok(names, layout):
